@@ -205,7 +205,7 @@ def apply(st, deco):
             out = []
             for i, c in enumerate(lst):
                 c2 = c if ('$' in c or '&' in c or '\n' in c) else c + ' $ %s %d = ( 1 2' % (tag, i)
-                out.append(('c %s card %d\n' % (tag, i) if i % 2 == 0 else 'C\n') + c2)
+                out.append(('c %s card %d\n' % (tag, i) if i % 3 == 0 else 'C\n' if i % 3 == 1 else 'c\tafter a tab %d\n' % i) + c2)
             return out
         st.cells, st.surfs, st.data = com(st.cells, 'cell'), com(st.surfs, 'surf'), com(st.data, 'data')
     elif deco == 'tabs':
@@ -246,7 +246,8 @@ def apply(st, deco):
             words = c.split(' ')
             if len(words) < 4:
                 return c
-            return words[0] + ' ' + words[1] + ''.join('\n      ' + w for w in words[2:] if w)
+            return words[0] + ' ' + words[1] + ''.join(('\nc\tcomment inside a card' if k == 1 else '') + '\n      ' + w
+                                                       for k, w in enumerate(w for w in words[2:] if w))
         new = [[many(c) for c in lst] for lst in (st.cells, st.surfs, st.data)]
         if new == [st.cells, st.surfs, st.data]:
             raise Inadmissible('no card long enough')
